@@ -107,7 +107,7 @@ def cases(tier, seed, i, n):
                     yield dict(kind='hist', hs=hs, seq=list(seq), seg='perstep')
         yield gen.mark('every sequence of <= %d server steps (18-step alphabet) x 6 handshake variants x 16 policies x 3 timer settings' % depth)
         rnd = random.Random(seed * 8191 + 7)
-        for _ in range(6000 if tier == 'quick' else 60000):
+        for _ in range(4000 if tier == 'quick' else 60000):
             d = rnd.randint(3, 5) if tier == 'quick' else rnd.randint(4, 6)
             yield dict(kind='hist', hs=rnd.choice(list(HS)), seq=[rnd.choice(STEPS) for _ in range(d)],
                        seg=rnd.choice(('perstep', 'coalesced', 'bytewise')),
